@@ -784,7 +784,7 @@ class ChanSim(Simulator):
     assumptions = ["CPython 3.12 asyncio.Queue semantics", "items are never None (but every other one is falsy)",
                    "sampling of schedules, not enumeration"]
     tiers = {
-        "quick": dict(runs=120000, chunk=1000, wall_cap=240, det_sample=400),
+        "quick": dict(runs=240000, chunk=1000, wall_cap=240, det_sample=400),
         "thorough": dict(runs=6000000, chunk=2000, wall_cap=1500, det_sample=5000),
     }
     expected_probes = ["probe:cancel-landed-between-wakeup-and-resumption",
